@@ -231,9 +231,31 @@ Definition chk_bounds (c : case16) : bool :=
       qle x0 (sX s) && qle (sX s + sW s) x1 && qle y0 (fst l - fDesc f) && qle (fst l + fAsc f) y1 &&
       qle (fst l + fAsc f) top && qle (- bottom) (fst l - fDesc f)) (snd l)) (cLines c).
 
+(** tie of the line-loop bookkeeping model (Layout.line_step): the number of glyphs in the spans of every line *)
+Definition kind_of (k : Z) : ity := if (k =? 0)%Z then TBox else if (k =? 1)%Z then TGlue else TPen.
+Fixpoint model_counts (rest : list bitem) (gl : list (Z * Z * Z * Z)) (ai ag : nat) (brs : list (Z * Q * Q)) : list nat :=
+  match brs with
+  | [] => []
+  | (p, _, _) :: r =>
+    let k := (Z.to_nat p - ai)%nat in
+    let bgpos := (ag + sizes (firstn k rest))%nat in
+    let hyph := match nth_error rest k with
+                | Some (TPen, 1%nat) => match nth_error gl bgpos with Some (_, ru, _, _) => (ru =? shy)%Z | None => false end
+                | _ => false
+                end in
+    let '(rg, rest', ag') := line_step rest hyph ag k in
+    (rB1 rg - rA1 rg)%nat :: model_counts rest' gl (ai + (length rest - length rest'))%nat ag' r
+  end.
+Definition chk_counts (c : case16) : bool :=
+  let its := map (fun t => let '(k, _, _, _, sz, _) := t in (kind_of k, Z.to_nat sz)) (cItems c) in
+  let m := model_counts its (cGlyphs c) 0 0 (cBreaks c) in
+  let g := map (fun l => length (line_glyphs l)) (cLines c) in
+  (length m =? length g)%nat && forallb (fun p => Nat.eqb (fst p) (snd p)) (combine m g).
+
 (** flags of a layout case:
     1 characters not covered exactly once in logical order (or a non-droppable character skipped / skipped inside a line)
-    2 tie: number of lines differs from the number of breaks / glyph cluster outside its span
+    2 tie: number of lines differs from the number of breaks / glyph cluster outside its span / glyphs per line differ
+      from the line-loop bookkeeping model run on the real items and breaks
     4 soft hyphen not shown as hyphen at a break (or shown elsewhere)
     8 lines not stacked by their heights        16 spans on a line overlap
     32 line leaves the box although Overflows is false     64 alignment equation fails
@@ -250,7 +272,7 @@ Definition chk_layout (c : case16) : Z :=
   let ls := cLines c in
   let vj := (cValign c =? 6)%Z in
   (bit (negb (chk_cover txt n ls)) 1
-   + bit (negb (chk_clusters ls && (length ls =? length (cBreaks c))%nat)) 2
+   + bit (negb (chk_clusters ls && (length ls =? length (cBreaks c))%nat && chk_counts c)) 2
    + bit (negb (chk_shy txt ls)) 4
    + bit (negb (chk_stack (cFaces c) (1 + cStretch c) vj ls)) 8
    + bit (negb (chk_disjoint ls)) 16
